@@ -1,4 +1,5 @@
 import DadiVerif.Lemmas.Projection
+import DadiVerif.Lemmas.ProjThm
 /-!
 # C08 — projection is hypergeometric subsampling: conserving, composable, mask-monotone
 
@@ -323,6 +324,176 @@ theorem C08_axis_entry (S : Spec) (ax m : ℕ) (idx : List ℕ) (hax : ax < S.sh
     exact C08_table m _ _ _ hm hj
   · rw [Spec.ofFn_getM _ _ _ _ idx hbox]
 
+/-! ## whole arrays: d-dimensional spectra of the model, any d
+
+`Spec.total` is the sum of the raw data array (`fs.data.sum()`), `sumBox sh f` the sum of `f` over all multi-indices of the
+box `sh` (Fubini machinery of Lemmas/ProjBox.lean), `kerL ms ns src tgt = Π_k hyp(ms_k, ns_k, src_k, tgt_k)` the product of
+the per-population hypergeometric weights.  Hypothesis `∀ s ∈ S.shape, 0 < s`: no axis of length 0 (every dadi spectrum has
+at least one entry per axis: sample size ≥ 0).  `S.project ns = .ok P` says that `project` did not refuse, i.e. `ns` is
+admissible (right length, no axis upward — `C08_up_refused`). -/
+section arrays
+open PBox
+
+/-- the executable total is the sum over the index box (row-major enumeration) -/
+theorem C08_total_box (S : Spec) : S.total = sumBox S.shape S.getD := total_eq_sumBox S
+
+/-- **Every entry of the whole `project` is the expected count** under independent sampling without replacement in every
+    population: the sum over the source box of the source entry times the product of the per-axis hypergeometric weights;
+    the result has shape `ns + 1` and is unfolded. -/
+theorem C08_entry_array (S P : Spec) (ns : List ℕ) (hf : S.folded = false) (hpos : ∀ s ∈ S.shape, 0 < s)
+    (h : S.project ns = .ok P) :
+    P.shape = ns.map (· + 1) ∧ P.folded = false ∧
+    ∀ tgt, InBox P.shape tgt → P.getD tgt = sumBox S.shape (fun src => S.getD src * kerL ns S.sampleSizes src tgt) := by
+  obtain ⟨_, hR⟩ := project_rel hf hpos h
+  obtain ⟨_, _, hP⟩ := project_ok h
+  refine ⟨hR.shape, ?_, fun tgt ht => ?_⟩
+  · rw [hP, hf]; exact projectAxes_folded _ _ S hf
+  · rw [hR.data tgt (by rw [← hR.shape]; exact ht)]
+    show sumBox (box1 S.sampleSizes) _ = _
+    rw [← shape_eq_box S hpos]
+
+/-- **The total count is conserved by the whole array operation** (raw data, masked cells included):
+    by `_project_one_axis` on any axis of a spectrum of any dimension, and by `project` to any admissible sizes —
+    for folded spectra too (fold and unfold conserve the raw total). -/
+theorem C08_total_array (S : Spec) :
+    (∀ ax m, ax < S.shape.length → 0 < S.shape.getD ax 0 → m ≤ S.shape.getD ax 1 - 1 →
+      (S.projectAxis ax m).total = S.total) ∧
+    (∀ ns P, (∀ s ∈ S.shape, 0 < s) → S.project ns = .ok P → P.total = S.total) :=
+  ⟨fun ax m hax hp hm => projectAxis_total S ax m hax hp hm, fun _ _ hpos h => project_total hpos h⟩
+
+/-- **Projecting in two stages equals projecting once, for whole arrays**: `S.project(ns1).project(ns2)` and
+    `S.project(ns2)` have the same shape, the same folding flag and agree entry by entry on the box, data and mask —
+    folded or unfolded source; the one-stage projection is accepted whenever the two stages are. -/
+theorem C08_compose_array (S P1 P12 : Spec) (ns1 ns2 : List ℕ) (hpos : ∀ s ∈ S.shape, 0 < s)
+    (h1 : S.project ns1 = .ok P1) (h12 : P1.project ns2 = .ok P12) :
+    ∃ P2, S.project ns2 = .ok P2 ∧ P12.shape = P2.shape ∧ P12.folded = P2.folded ∧
+      ∀ idx, InBox P2.shape idx → P12.getD idx = P2.getD idx ∧ P12.getM idx = P2.getM idx :=
+  compose_array hpos h1 h12
+
+/-- **Two different axes can be projected in either order, for whole arrays of any dimension**: same shape, same
+    entries (data and mask) on the whole box. -/
+theorem C08_axes_commute_array (S : Spec) (a b m₁ m₂ : ℕ) (hab : a ≠ b) (ha : a < S.shape.length) (hb : b < S.shape.length)
+    (hpa : 0 < S.shape.getD a 0) (hpb : 0 < S.shape.getD b 0)
+    (h₁ : m₁ ≤ S.shape.getD a 1 - 1) (h₂ : m₂ ≤ S.shape.getD b 1 - 1) :
+    ((S.projectAxis a m₁).projectAxis b m₂).shape = ((S.projectAxis b m₂).projectAxis a m₁).shape ∧
+    ∀ idx, InBox ((S.projectAxis a m₁).projectAxis b m₂).shape idx →
+      ((S.projectAxis a m₁).projectAxis b m₂).getD idx = ((S.projectAxis b m₂).projectAxis a m₁).getD idx ∧
+      ((S.projectAxis a m₁).projectAxis b m₂).getM idx = ((S.projectAxis b m₂).projectAxis a m₁).getM idx :=
+  axes_commute_array S a b m₁ m₂ hab ha hb hpa hpb h₁ h₂
+
+/-- **A masked source entry masks exactly the entries it can reach under the whole `project`**: entry `tgt` of the
+    projection is masked iff some masked source entry `src` lies, on every axis k, inside the window
+    `tgt_k ≤ src_k ≤ tgt_k + (n_k − m_k)` (the support of the product of the weights). -/
+theorem C08_mask_array (S P : Spec) (ns : List ℕ) (hf : S.folded = false) (hpos : ∀ s ∈ S.shape, 0 < s)
+    (h : S.project ns = .ok P) (tgt : List ℕ) (ht : InBox P.shape tgt) :
+    P.getM tgt = true ↔ ∃ src, InBox S.shape src ∧ S.getM src = true ∧
+      ∀ k, k < S.shape.length → tgt.getD k 0 ≤ src.getD k 0
+        ∧ src.getD k 0 - tgt.getD k 0 ≤ S.sampleSizes.getD k 0 - ns.getD k 0 := by
+  obtain ⟨hL, hR⟩ := project_rel hf hpos h
+  obtain ⟨hl, _, _⟩ := project_ok h
+  have hsl := sampleSizes_length S
+  have htb : InBox (box1 ns) tgt := by rw [← hR.shape]; exact ht
+  rw [hR.mask tgt htb]
+  unfold closedM
+  have key : ∀ src, inBox (box1 S.sampleSizes) src →
+      (kerL ns S.sampleSizes src tgt ≠ 0 ↔ ∀ k, k < S.shape.length → tgt.getD k 0 ≤ src.getD k 0
+        ∧ src.getD k 0 - tgt.getD k 0 ≤ S.sampleSizes.getD k 0 - ns.getD k 0) := by
+    intro src hs
+    rw [kerL_ne_zero_iff hL src tgt hs htb.inBox,
+      reach_iff ns S.sampleSizes src tgt (by omega) (by rw [inBox_length hs, box1_length])
+        (by rw [htb.length, box1_length]; omega), hsl]
+  constructor
+  · rintro ⟨src, hs, hm, hk⟩
+    exact ⟨src, by rw [shape_eq_box S hpos]; exact (inBox_iff _ _).mp hs, hm, (key src hs).mp hk⟩
+  · rintro ⟨src, hs, hm, hk⟩
+    have hs' : inBox (box1 S.sampleSizes) src := by rw [← shape_eq_box S hpos]; exact hs.inBox
+    exact ⟨src, hs', hm, (key src hs').mpr hk⟩
+
+/-- mask monotonicity for arrays: masking more source entries can only mask more projected entries, and a source
+    without masked entries gives a projection without masked entries. -/
+theorem C08_mask_mono_array (S S' P P' : Spec) (ns : List ℕ) (hf : S.folded = false) (hf' : S'.folded = false)
+    (hpos : ∀ s ∈ S.shape, 0 < s) (hsh : S'.shape = S.shape)
+    (h : S.project ns = .ok P) (h' : S'.project ns = .ok P') :
+    ((∀ src, InBox S.shape src → S.getM src = true → S'.getM src = true) →
+      ∀ tgt, InBox P.shape tgt → P.getM tgt = true → P'.getM tgt = true) ∧
+    ((∀ src, InBox S.shape src → S.getM src = false) → ∀ tgt, InBox P.shape tgt → P.getM tgt = false) := by
+  have hpos' : ∀ s ∈ S'.shape, 0 < s := by rw [hsh]; exact hpos
+  have hss : S'.sampleSizes = S.sampleSizes := by unfold Spec.sampleSizes; rw [hsh]
+  have hPs : P'.shape = P.shape := by
+    rw [(C08_entry_array S' P' ns hf' hpos' h').1, (C08_entry_array S P ns hf hpos h).1]
+  constructor
+  · intro hsub tgt ht hm
+    obtain ⟨src, hs, hms, hk⟩ := (C08_mask_array S P ns hf hpos h tgt ht).mp hm
+    refine (C08_mask_array S' P' ns hf' hpos' h' tgt (by rw [hPs]; exact ht)).mpr ⟨src, by rw [hsh]; exact hs, hsub src hs hms, ?_⟩
+    rw [hsh, hss]; exact hk
+  · intro hnone tgt ht
+    by_contra hc
+    rw [Bool.not_eq_false] at hc
+    obtain ⟨src, hs, hms, _⟩ := (C08_mask_array S P ns hf hpos h tgt ht).mp hc
+    rw [hnone src hs] at hms
+    exact Bool.false_ne_true hms
+
+/-- **Projection commutes with reversing every axis, for whole arrays**: `reverse_array(S).project(ns)` is accepted and
+    equals `reverse_array(S.project(ns))` entry by entry, data and mask (array form of `C08_mirror`). -/
+theorem C08_mirror_array (S P : Spec) (ns : List ℕ) (hf : S.folded = false) (hpos : ∀ s ∈ S.shape, 0 < s)
+    (h : S.project ns = .ok P) :
+    ∃ Q, S.mirror.project ns = .ok Q ∧ Q.shape = P.shape ∧
+      ∀ idx, InBox P.shape idx → Q.getD idx = P.getD (Spec.revIdx P.shape idx)
+        ∧ Q.getM idx = P.getM (Spec.revIdx P.shape idx) := by
+  obtain ⟨hL, hR⟩ := project_rel hf hpos h
+  obtain ⟨hl, hup, _⟩ := project_ok h
+  refine ⟨Spec.projectAxes S.mirror ns S.sampleSizes, ?_, ?_⟩
+  · have := project_eq_ok S.mirror ns hl hup
+    rwa [mirror_folded, hf] at this
+  · have hQ := project_mirror_rel ns S.sampleSizes (rel_self_box S hpos) hL
+    refine ⟨hQ.shape.trans hR.shape.symm, fun idx hb => ?_⟩
+    have hb' : InBox (box1 ns) idx := by rw [← hR.shape]; exact hb
+    rw [hR.shape, hQ.data idx hb', hR.data _ hb'.rev, Bool.eq_iff_iff, hQ.mask idx hb', hR.mask _ hb'.rev]
+    exact ⟨rfl, Iff.rfl⟩
+
+/-- **fold ∘ project = fold ∘ project ∘ unfold ∘ fold = fold ∘ project ∘ mirror, for d-dimensional arrays.**
+    For an unfolded spectrum S whose projection to `ns` is P: projecting the folded spectrum `S.fold()` — the code path
+    fold(project(unfold(·))) of `C08_folded` — is accepted and returns *the same spectrum* as folding the projection
+    (`S.fold().project(ns) = S.project(ns).fold()`, data, mask, shape and flag), and the mirrored spectrum folds to the
+    same result after projection.  Uses `C08_mirror` in array form and C09's fold algebra (Lemmas/Fold.lean). -/
+theorem C08_fold_commute (S P : Spec) (ns : List ℕ) (hf : S.folded = false) (hpos : ∀ s ∈ S.shape, 0 < s)
+    (h : S.project ns = .ok P) :
+    S.fold.project ns = .ok P.fold ∧ ∃ Q, S.mirror.project ns = .ok Q ∧ Q.fold = P.fold := by
+  obtain ⟨hL, _⟩ := project_rel hf hpos h
+  obtain ⟨hl, hup, hP⟩ := project_ok h
+  rw [hf] at hP
+  simp only [Bool.false_eq_true, if_false] at hP
+  have hR := rel_self_box S hpos
+  constructor
+  · have := project_eq_ok S.fold ns hl hup
+    rw [fold_folded] at this
+    simp only [if_true] at this
+    rw [this, hP]
+    exact congrArg Except.ok (fold_project_unfold_fold ns S.sampleSizes hR hL)
+  · refine ⟨Spec.projectAxes S.mirror ns S.sampleSizes, ?_, ?_⟩
+    · have := project_eq_ok S.mirror ns hl hup
+      rwa [mirror_folded, hf] at this
+    · rw [hP]; exact fold_project_mirror ns S.sampleSizes hR hL
+
+/-- **`fold` / `unfold` of the C08 model are the programs regenerated from the source** (`Spectrum.fold`,
+    `Spectrum.unfold` as translated by tools/gen_Fold.py into Generated/Fold.lean for C09), instantiated at multi-indices
+    with mirror = reversal of every axis and total = sum of the index: every entry of the box, data and mask
+    (corner masking of the constructor included). -/
+theorem C08_fold_generated (S : Spec) (idx : List ℕ) (h : InBox S.shape idx) :
+    S.fold.getD idx
+      = Gen.Fold.fold_outData (Spec.revIdx S.shape) Spec.totalPerEntry (Spec.totalSamples S.shape) S.getD S.getM idx ∧
+    S.fold.getM idx
+      = (Gen.Fold.fold_outMask (Spec.revIdx S.shape) Spec.totalPerEntry (Spec.totalSamples S.shape) S.getD S.getM idx
+          || (Gen.Fold.fold_maskCorners && Spec.isCorner S.shape idx)) ∧
+    S.unfold.getD idx
+      = Gen.Fold.unfold_outData (Spec.revIdx S.shape) Spec.totalPerEntry (Spec.totalSamples S.shape) S.getD S.getM idx ∧
+    S.unfold.getM idx
+      = (Gen.Fold.unfold_outMask (Spec.revIdx S.shape) Spec.totalPerEntry (Spec.totalSamples S.shape) S.getD S.getM idx
+          || (Gen.Fold.unfold_maskCorners && Spec.isCorner S.shape idx)) :=
+  ⟨fold_getD_gen S idx h, fold_getM_gen S idx h, unfold_getD_gen S idx h, unfold_getM_gen S idx h⟩
+
+end arrays
+
 /-! ## glue read off the source -/
 
 /-- statement-level wiring regenerated from the source: the cache key is the full argument tuple, the cache is a
@@ -356,5 +527,24 @@ example : (List.range 4).map (projLineMask 3 4 (fun i => i == 2)) = [false, true
 /-- upward projection is refused on a concrete spectrum -/
 example : (Spec.ofFn [4] (fun _ => 1) (fun _ => false) false).project [5] = .error "up" :=
   (C08_up_refused _ [5]).1 rfl ⟨0, by decide, by decide⟩
+
+/-- the hypotheses of the array theorems are satisfiable: a 3×4 spectrum with a masked interior entry projects to 2×3 -/
+def exS : Spec := Spec.ofFn [3, 4] (fun idx => (idx.getD 0 0 + 2 * idx.getD 1 0 : ℕ)) (fun idx => idx == [1, 2]) false
+
+example : exS.folded = false ∧ (∀ s ∈ exS.shape, 0 < s) ∧ ∃ P, exS.project [1, 2] = .ok P :=
+  ⟨rfl, by decide, _, PBox.project_eq_ok exS [1, 2] rfl (by decide)⟩
+
+/-- two admissible stages 3×4 → 3×3 → 2×3 -/
+example : ∃ P1 P12, exS.project [2, 2] = .ok P1 ∧ P1.project [1, 2] = .ok P12 := by
+  refine ⟨_, _, PBox.project_eq_ok exS [2, 2] rfl (by decide), PBox.project_eq_ok _ [1, 2] ?_ ?_⟩
+  · decide +kernel
+  · decide +kernel
+
+/-- the conserved total is a non-trivial number: 48 before and after -/
+example : exS.total = 48 ∧ (exS.projectAxis 1 1).total = 48 := by decide +kernel
+
+/-- two different axes of `exS` with admissible targets -/
+example : (0 : ℕ) ≠ 1 ∧ 0 < exS.shape.length ∧ 1 < exS.shape.length ∧ 0 < exS.shape.getD 0 0 ∧ 0 < exS.shape.getD 1 0
+    ∧ 1 ≤ exS.shape.getD 0 1 - 1 ∧ 2 ≤ exS.shape.getD 1 1 - 1 := by decide
 
 end DadiVerif
